@@ -84,7 +84,9 @@ func (a *ArgMax) Apply(inputs []tensor.Tensor) ([]tensor.Tensor, error) {
 
 	// The tensor.Argmax function returns data of type int, but according to
 	// the ONNX standard this operator should return int64.
-	backing, ok := reduced.Data().([]int)
+	// When the input has rank 1 and the reduced axis is not kept the result is a scalar,
+	// whose data is a bare int instead of a list.
+	backing, ok := ops.IfScalarToSlice(reduced.Data()).([]int)
 	if !ok {
 		return nil, ops.ErrTypeAssert("int", reduced.Dtype())
 	}
